@@ -150,3 +150,22 @@ def run(chk):
     from .c05 import ACCESSORS, PREDICATES, import_lookup_contracts
     chk.guard("R4", lambda: import_lookup_contracts(chk, "R4", [a for _i, a in ACCESSORS + PREDICATES], with_chain=False,
                                                     desc="every lookup that takes a counterpart type prefers the instruction dedicated to THAT type and otherwise only accepts a default one (never one dedicated to another counterpart)"))
+
+    def r5():
+        # an instruction dedicated to counterpart B on a member must not change what counterpart A receives through #[repeat]: the
+        # repeated categories are copied unconditionally (C14.R2 member-repeat instances)
+        from ..core import Check
+        from . import c14
+        sub = Check("C14", chk.repo, chk.tier)
+        sub.guard("R2", lambda: c14.r2(sub) if hasattr(c14, "r2") else c14.run(sub))
+        chk.rule("R5", "member-level repeat copies each category regardless of what the receiving member carries itself", floor=4)
+        for r_, why in sub.inconclusive:
+            if r_ == "R2":
+                chk.inconc("R5", why)
+        for i in sub.instances:
+            if i.rule == "R2" and i.key.startswith("member-repeat["):
+                if i.ok:
+                    chk.ok("R5", "repeat:" + i.key, i.file, i.line)
+                else:
+                    chk.bad("R5", "repeat:" + i.key, i.file, i.line, i.what, i.expected, i.found)
+    chk.guard("R5", r5)
